@@ -37,6 +37,8 @@ IntVals(k) ==
           ELSE {})
 GInts == UNION {{S!GInt(k, z) : z \in IntVals(k)} : k \in S!IntKinds}
 
+(* the extreme magnitudes cost seconds each in the shortest-digits search of 9.8.1: thorough tier only *)
+Extremes == {Canon(FALSE, <<1>>, -1074), Canon(FALSE, S!BnSub(S!BnShl(<<1>>, 53), <<1>>), 971), Canon(FALSE, <<1>>, -1022)}
 F32Vals == {S!NaN, S!PInf, S!NInf, I(0), S!NZero, I(1), I(-1), Canon(FALSE, <<3>>, -1),
             Canon(FALSE, S!BnFromInt(13421773), -27),            \* float32(0.1)
             S!MaxF32, S!NumNeg(S!MaxF32), Canon(FALSE, <<1>>, -149), Canon(FALSE, <<1>>, 24), Canon(FALSE, <<1>>, -126)}
@@ -45,7 +47,8 @@ F64Vals == {S!NaN, S!PInf, S!NInf, I(0), S!NZero, I(1), I(-1), Canon(FALSE, <<1>
             P2(31), P2(32), ZSub(53, 1), P2(53), ZAdd(53, 2), P2(63), ZNeg(P2(63)), P2(64), ZSub(63, 1024),
             S!DecToNum(FALSE, <<1>>, 21), S!DecToNum(FALSE, <<1>>, -7), S!DecToNum(FALSE, <<1>>, -6),
             S!DecToNum(FALSE, S!BnFromInt(123456789), -3), S!DecToNum(FALSE, S!BnFromInt(123456789), 12),
-            Canon(FALSE, <<1>>, -1074), Canon(FALSE, S!BnSub(S!BnShl(<<1>>, 53), <<1>>), 971), S!MaxF32}
+            S!MaxF32}
+           \cup (IF Tier = "thorough" THEN Extremes ELSE {})
 GFlts == {S!GFlt("float32", n) : n \in F32Vals} \cup {S!GFlt("float64", n) : n \in F64Vals}
 
 U_abc == <<97, 98, 99>>
@@ -99,8 +102,8 @@ Pow2(k) == Canon(FALSE, <<1>>, k)
 NumsPos == {I(1), Canon(FALSE, <<1>>, -1), Canon(FALSE, <<3>>, -1), I(2), I(255),
             S!NumSub(Pow2(31), I(1)), Pow2(31), S!NumSub(Pow2(32), I(1)), Pow2(32),
             S!NumSub(Pow2(53), I(1)), Pow2(53), S!NumAdd(Pow2(53), I(2)), ZSub(63, 1024), Pow2(63), ZAdd(63, 2048), Pow2(64),
-            S!DecToNum(FALSE, <<1>>, 21), S!DecToNum(FALSE, <<1>>, -7), S!DecToNum(FALSE, S!BnFromInt(123456), -3),
-            Canon(FALSE, <<1>>, -1074), Canon(FALSE, S!BnSub(S!BnShl(<<1>>, 53), <<1>>), 971)}
+            S!DecToNum(FALSE, <<1>>, 21), S!DecToNum(FALSE, <<1>>, -7), S!DecToNum(FALSE, S!BnFromInt(123456), -3)}
+           \cup (IF Tier = "thorough" THEN Extremes ELSE {})
 JNums == {S!NaN, I(0), S!NZero, S!PInf, S!NInf} \cup NumsPos \cup {S!NumNeg(x) : x \in NumsPos}
 RetP(v) == [k |-> "ret", v |-> v]
 Objs == {[t |-> "cobj", id |-> 1, vo |-> RetP(S!IntV(7)), ts |-> RetP(S!StrV(<<55>>))],
